@@ -107,7 +107,7 @@ fn plan_for(property: &str) -> Option<Plan> {
       engine: "world",
       level: "exploration",
       quick_runs: 30_000,
-      thorough_runs: 1_500_000,
+      thorough_runs: 800_000,
       params_quick: &[("max_batch", 1000)],
       params_thorough: &[("max_batch", 100000)],
     },
